@@ -465,6 +465,12 @@ pub enum Op {
     Clear,
     /// rebuild the buffer through from_bits(content, bit_len) / Vec<u8> round trip
     Rebuild,
+    /// overwrite already written bits: `with_write_position_at(p, |b| b.write_bit(bit))`, p scaled
+    /// into the written bits at execution time
+    OverwriteBit(u16, bool),
+    /// `with_write_position_at(p, |b| b.write_bits_with_len(src, n))`, p and n scaled so that the
+    /// range stays inside the written bits
+    OverwriteBits(u16, Vec<u8>, u16),
 }
 
 impl Op {
@@ -483,6 +489,8 @@ impl Op {
             Op::ResetRead => json!({"op": "reset_read_position"}),
             Op::Clear => json!({"op": "clear"}),
             Op::Rebuild => json!({"op": "rebuild"}),
+            Op::OverwriteBit(p, b) => json!({"op": "overwrite_bit", "p": p, "bit": b}),
+            Op::OverwriteBits(p, s, n) => json!({"op": "overwrite_bits", "p": p, "src": hex(s), "n": n}),
         }
     }
     fn from_json(j: &J) -> Op {
@@ -501,6 +509,8 @@ impl Op {
             "read_bits_with_offset_len" => Op::ReadOffsetLen(u("dst_len"), u("off"), u("n")),
             "reset_read_position" => Op::ResetRead,
             "clear" => Op::Clear,
+            "overwrite_bit" => Op::OverwriteBit(u("p") as u16, j["bit"].as_bool().unwrap()),
+            "overwrite_bits" => Op::OverwriteBits(u("p") as u16, s(), u("n") as u16),
             _ => Op::Rebuild,
         }
     }
@@ -527,6 +537,8 @@ pub fn op_strategy() -> impl Strategy<Value = Op> {
         1 => Just(Op::ResetRead),
         1 => Just(Op::Clear),
         1 => Just(Op::Rebuild),
+        3 => (any::<u16>(), any::<bool>()).prop_map(|(p, b)| Op::OverwriteBit(p, b)),
+        3 => (any::<u16>(), bytes(), any::<u16>()).prop_map(|(p, s, n)| Op::OverwriteBits(p, s, n)),
     ]
 }
 
@@ -621,6 +633,30 @@ pub fn check_history(ops: &[Op]) -> Result<(), Fail> {
                 buf.clear();
                 model.clear();
                 rpos = 0;
+            }
+            Op::OverwriteBit(p, bit) => {
+                if !model.is_empty() {
+                    let pos = ((*p as usize) * model.len()) >> 16;
+                    let res = catch(|| buf.with_write_position_at(pos, |b| b.write_bit(*bit))).map_err(|pn| (format!("BitBuffer.{name}:panic"), at(&format!("panicked: {pn}"))))?;
+                    if let Err(e) = res {
+                        return Err((format!("BitBuffer.{name}:refused"), at(&format!("overwriting the written bit {pos} of {} failed: {e:?}", model.len()))));
+                    }
+                    model[pos] = *bit;
+                }
+            }
+            Op::OverwriteBits(p, src, n) => {
+                if !model.is_empty() && !src.is_empty() {
+                    let pos = ((*p as usize) * model.len()) >> 16;
+                    let room = (model.len() - pos).min(src.len() * 8);
+                    let n = ((*n as usize) * (room + 1)) >> 16;
+                    let res = catch(|| buf.with_write_position_at(pos, |b| b.write_bits_with_len(src, n))).map_err(|pn| (format!("BitBuffer.{name}:panic"), at(&format!("panicked: {pn}"))))?;
+                    if let Err(e) = res {
+                        return Err((format!("BitBuffer.{name}:refused"), at(&format!("overwriting {n} written bits at {pos} of {} failed: {e:?}", model.len()))));
+                    }
+                    for i in 0..n {
+                        model[pos + i] = bit_at(src, i);
+                    }
+                }
             }
             Op::Rebuild => {
                 let bit_len = buf.bit_len();
